@@ -300,6 +300,28 @@ func runC09(r *Run) {
 	} else {
 		r.Bad("R2", "anchor/ComputeClawback", "", "not found")
 	}
+	r.Rule("R17", "FLOW.merge-never-lowers-the-tracked-delegation: a merge (addGrant — reached by the funder's second grant and, through liquid vesting's Redeem, by anybody) re-derives the account's delegation tracking from the staking module's current figures. After a slash those are lower than what left the bank balance; coins lost to slashing stay tracked as delegated (as in the SDK), otherwise the locked amount exceeds what the account can still hold and the funder's clawback of the untouched unvested coins fails with 'insufficient funds'. The DelegatedFree that addGrant stores is therefore the larger (MaxInt) of the amount tracked so far (DelegatedFree + DelegatedVesting) and the current bonded + unbonding amount")
+	if ag, ok := P.FnOK("(x/vesting/keeper.Keeper).addGrant"); ok {
+		okDF, nDF := true, 0
+		eachInstr(ag, func(in ssa.Instruction) {
+			st, ok := in.(*ssa.Store)
+			if !ok {
+				return
+			}
+			if _, f, ok := fieldOfAddr(st.Addr); !ok || f != "DelegatedFree" {
+				return
+			}
+			nDF++
+			sl := backSlice(st.Val)
+			if !(sl.HasCall(func(g CallInfo) bool { return g.Name == "MaxInt" }) && sl.HasField("", "DelegatedFree") && sl.HasField("", "DelegatedVesting")) {
+				okDF = false
+			}
+		})
+		r.Check(okDF && nDF >= 1, "R17", fnID(ag)+"#tracked-delegation-not-lowered", P.Pos(fnPos(ag)), "DelegatedFree := MaxInt(tracked so far, bonded + unbonding)",
+			"addGrant overwrites the delegation tracking with the staking module's current figure alone: after a slash of any size the tracked amount drops below what left the balance, LockedCoins exceeds the balance and the funder's clawback is refused — anybody can trigger the merge by redeeming one unit of a liquid token into the account")
+	} else {
+		r.Bad("R17", "anchor/addGrant", "", "not found")
+	}
 	r.Rule("R16", "see C08 R3 (imported): the one place where Haqq code calls the SDK staking keeper's Delegate directly (the 'stake' option of ConvertIntoVestingAccount, no unvested-coins check) bonds exactly what the *new grant's own* schedule has vested at the block time — ReadSchedule over the message's vesting periods — and not what the stored account reports as vested after the merge: the account's vested coins include earlier grants' coins that may have left the balance, so unvested coins of the new grant would be bonded and a later clawback cannot be paid")
 	r.Import("R16/C08.", []string{"R3"}, runC08)
 	r.Rule("R6", "FLOW.endtime (same rule code as C08 R6): every store to a vesting account's EndTime depends on both the lockup and the vesting schedule — ReadSchedule returns the full amount from EndTime on, so an end taken from one schedule ends the other's lock early (the account is no longer valid)")
